@@ -120,6 +120,12 @@ func globalByName(p *Program, pkgRel, name string) *ssa.Global {
 		return nil
 	}
 	g, _ := sp.Members[name].(*ssa.Global)
+	if g == nil {
+		// renamed? (fingerprints.go)
+		if nn := p.resolveVarByFingerprint(pkgRel, name); nn != "" {
+			g, _ = sp.Members[nn].(*ssa.Global)
+		}
+	}
 	return g
 }
 
